@@ -4,6 +4,7 @@ import (
 	"go/token"
 	"go/types"
 	"sort"
+	"strconv"
 	"strings"
 
 	"golang.org/x/tools/go/ssa"
@@ -365,6 +366,24 @@ func runC14(c *Ctx) {
 					return false
 				})
 				c.ob("C14-R4", fnKey(fn)+"#savepoint-name-per-level-"+itoa(k), bo.Pos(), !isConst && fromCounter, "the savepoint of a nested transaction has a fixed name: after an inner level rolled back to it (which leaves it on the stack) the enclosing level's `ROLLBACK TO` finds the inner leftover first, and work the enclosing level did before the inner one survives its rollback")
+			})
+		}
+		// the whole statement as one constant: `SAVEPOINT glyph_sp` (the compiler folds "SAVEPOINT " + a constant name)
+		for _, fn := range c.srcFuncs(dbPkg) {
+			k := 0
+			eachCall(fn, func(cl ssa.CallInstruction) {
+				for _, a := range cl.Common().Args {
+					sv, ok := constString(a)
+					if !ok {
+						continue
+					}
+					t := strings.TrimSpace(sv)
+					if strings.HasPrefix(strings.ToUpper(t), "SAVEPOINT ") && len(strings.Fields(t)) >= 2 {
+						k++
+						ns++
+						c.ob("C14-R4", fnKey(fn)+"#savepoint-name-per-level-const-"+itoa(k), cl.Pos(), false, "the savepoint of a nested transaction has a fixed name ("+strconv.Quote(t)+"): after an inner level rolled back to it (which leaves it on the stack) the enclosing level's `ROLLBACK TO` finds the inner leftover first, and work the enclosing level did before the inner one survives its rollback")
+					}
+				}
 			})
 		}
 		c.Sites["C14-R4#savepoints"] = ns
